@@ -40,8 +40,10 @@ fn corridor(d: &Value) -> (Value, [u32; 2], [u32; 2], [u32; 2], [u32; 2]) {
     // so that a link can be made a few metres longer than a train (two link events inside one simulation step)
     let foul = foul * 100;
     let mut track_v: Vec<[Option<i64>; 2]> = vec![];
+    let mut xlock: Vec<usize> = vec![]; // "X" stages that declare lockouts
     for st in ga(d, "stages") {
-        let len = st[1].as_i64().unwrap() * 100;
+        let is_x = st[0].as_str().unwrap() == "X";
+        let len = st[1].as_i64().unwrap() * if is_x { 1 } else { 100 };
         if st[0].as_str().unwrap() == "M" {
             stages.push(vec![vec![len + st.get(2).and_then(|x| x.as_i64()).unwrap_or(0)]]);
             track_v.push([None, None]);
@@ -49,6 +51,16 @@ fn corridor(d: &Value) -> (Value, [u32; 2], [u32; 2], [u32; 2], [u32; 2]) {
             // junction: two plain branches (only as first or last stage): origins / destinations differ per train
             stages.push(vec![vec![len], vec![len + 100]]);
             track_v.push([None, None]);
+        } else if st[0].as_str().unwrap() == "X" {
+            // explicit siding, all in METRES: ["X", body_primary, body_alternate, foul, v_primary, v_alternate, lock]:
+            // each track is foul-in, body, foul-out (the alternate's foul links 1 m longer); lockouts between the
+            // foul links of the two tracks only when lock = 1 (per stage, independent of "lockouts")
+            let g = |k: usize| st[k].as_i64().unwrap();
+            stages.push(vec![vec![g(3), g(1), g(3)], vec![g(3) + 1, g(2), g(3) + 1]]);
+            track_v.push([Some(g(4)), Some(g(5))]);
+            if g(6) != 0 {
+                xlock.push(stages.len() - 1);
+            }
         } else {
             let track = |extra: i64| {
                 if lock {
@@ -117,7 +129,8 @@ fn corridor(d: &Value) -> (Value, [u32; 2], [u32; 2], [u32; 2], [u32; 2]) {
             }
         }
         // lockouts between the foul links of the two tracks of a siding stage (both ends, both directions)
-        if lock && st.len() == 2 && st[0].len() == 3 {
+        let is_x = ga(d, "stages")[si][0].as_str().unwrap() == "X";
+        if (if is_x { xlock.contains(&si) } else { lock }) && st.len() == 2 && st[0].len() == 3 {
             for pi in [0usize, 2] {
                 let a = fwd[si][0][pi];
                 let b = fwd[si][1][pi];
@@ -139,6 +152,8 @@ fn corridor(d: &Value) -> (Value, [u32; 2], [u32; 2], [u32; 2], [u32; 2]) {
             track: links[i].track,
         };
     }
+    // speed sets apply to the head end unless "head": false (then each limit also covers the train's length behind it)
+    let head = d.get("head").and_then(|x| x.as_bool()).unwrap_or(true);
     let mut out = vec![];
     for i in 1..=2 * nf {
         let l = &links[i];
@@ -149,7 +164,7 @@ fn corridor(d: &Value) -> (Value, [u32; 2], [u32; 2], [u32; 2], [u32; 2]) {
         out.push(json!({"len": l.len, "flip": flip(i), "next": l.next, "next_alt": l.next_alt,
             "prev": l.prev, "prev_alt": l.prev_alt, "lockout": l.lockout,
             "elevs": [[0, 0], [l.len, rise]],
-            "head": true, "rs": [[0, l.len, v]]}));
+            "head": head, "rs": [[0, l.len, v]]}));
     }
     // [branch 0, branch 1] at either end (equal when the end is not a junction)
     let west: Vec<usize> = fwd[0].iter().map(|t| t[0]).collect();
